@@ -420,10 +420,53 @@ def rule_K4(chk, prog, cached):
         r = prog.resolve_attr_chain(ctl, node)
         return r if isinstance(r, FuncInfo) else None
 
+    def table_loop(st, kind):
+        """`for m, n in TABLE: <body>` over a module-level literal table of (module alias, 'function name') pairs, with the body
+        addressing the function as getattr(m, n) on both sides -> list of synthesised `alias.name` attribute nodes, else None"""
+        if not (isinstance(st, ast.For) and isinstance(st.target, ast.Tuple) and len(st.target.elts) == 2 and not st.orelse and len(st.body) == 1):
+            return None
+        mv, nv = (A.text(e) for e in st.target.elts)
+        tab = st.iter
+        if isinstance(tab, ast.Name):
+            ds = [n.value for n in ctl.tree.body if isinstance(n, ast.Assign) and A.text(n.targets[0]) == tab.id]
+            if len(ds) != 1:
+                return None
+            tab = ds[0]
+        if not isinstance(tab, (ast.Tuple, ast.List)):
+            return None
+        b0 = st.body[0]
+        ga = f"getattr({mv}, {nv})"
+        if kind == "set":
+            c = b0.value if isinstance(b0, ast.Expr) else None
+            ok = isinstance(c, ast.Call) and A.call_name(c) == "setattr" and len(c.args) == 3 and A.text(c.args[0]) == mv and A.text(c.args[1]) == nv \
+                and A.text(c.args[2]) == f"lru_cache(maxsize)({ga}.__wrapped__)"
+        else:
+            c = b0.value if isinstance(b0, ast.Expr) else None
+            ok = isinstance(c, ast.Call) and A.text(c.func) == f"{ga}.cache_clear" and not c.args
+        if not ok:
+            return None
+        out = []
+        for e in tab.elts:
+            if not (isinstance(e, (ast.Tuple, ast.List)) and len(e.elts) == 2 and isinstance(e.elts[1], ast.Constant) and isinstance(e.elts[1].value, str)):
+                return None
+            out.append(ast.copy_location(ast.Attribute(value=e.elts[0], attr=e.elts[1].value, ctx=ast.Load()), e))
+        return out
+
     sets = {}
     # set_cache_maxsize: M.f = lru_cache(maxsize)(M.f.__wrapped__)
     seen = []
     for st in A.strip_docstring(fs["set_cache_maxsize"].node.body):
+        tl = table_loop(st, "set")
+        if tl is not None:
+            # getattr(m, n) on both sides of setattr: every entry is re-wrapped with its own body by construction
+            for at in tl:
+                t = target_of(at)
+                if t is None or not any("lru_cache" in d for d in t.decorators):
+                    chk.bad("K4", (fs["set_cache_maxsize"], st), A.text(at), f"`{A.text(at)}` (entry of the table) is not a memoised function of that module")
+                    continue
+                seen.append(t)
+                chk.ok("K4", (fs["set_cache_maxsize"], st), A.text(at), {"function": t.qualname}, sample=len(seen) <= 2)
+            continue
         if not (isinstance(st, ast.Assign) and len(st.targets) == 1 and isinstance(st.targets[0], ast.Attribute)):
             chk.bad("K4", (fs["set_cache_maxsize"], st), st, "statement is not of the form `M.f = lru_cache(maxsize)(M.f.__wrapped__)`")
             continue
@@ -451,6 +494,16 @@ def rule_K4(chk, prog, cached):
     # clear_cache: M.f.cache_clear()
     seen = []
     for st in A.strip_docstring(fs["clear_cache"].node.body):
+        tl = table_loop(st, "clear")
+        if tl is not None:
+            for at in tl:
+                t = target_of(at)
+                if t is None:
+                    chk.bad("K4", (fs["clear_cache"], st), A.text(at), f"`{A.text(at)}` (entry of the table) is not a memoised function")
+                    continue
+                seen.append(t)
+                chk.ok("K4", (fs["clear_cache"], st), A.text(at), sample=False)
+            continue
         c = st.value if isinstance(st, ast.Expr) else None
         if not (isinstance(c, ast.Call) and isinstance(c.func, ast.Attribute) and c.func.attr == "cache_clear"):
             chk.bad("K4", (fs["clear_cache"], st), st, "statement is not `M.f.cache_clear()`")
